@@ -218,7 +218,9 @@ def step (st : St) (toks : List String) : St × String :=
         ({ st with handle := { st.handle with gate := g }, sched := st.sched.filter (·.1 ≠ tid) }, "ok")
       | none => (st, "bad-op")
     | none => (st, "bad-op")
-  | ["CSTART", tid, id] =>
+  -- the call has been entered but has not asked for the lock yet: nothing shared is touched
+  | ["CENTER", _tid, _id] => (st, "ok")
+  | ["CSTART", tid, id] | ["CGO", tid, id] =>      -- CGO: a call parked by CENTER goes on to the lock
     match tid.toNat?, getSpec st id with
     | some tid, some s =>
       let (c, ok) := (CState.mk st.handle st.lock st.waiting st.gateOf).step (.start tid s)
